@@ -69,7 +69,9 @@ pub fn run(thorough: bool) -> Report {
     let mut rep = Report::new("single operations: 12 operators x 0..2 operands over the direct-object alphabet (all combinations); sequences of 2 and 3 operations over a 9-operation set (all); all 65 536 byte pairs as name / literal / hex string operands; inline images: W,H in 1..3 x {G,RGB,CMYK and long names} x BPC {1,8} x abbreviated/long keys; nesting depth: a TJ operand that is an array / a dictionary / alternating arrays and dictionaries (every level with leaf siblings before and after the nested child) / a literal string of balanced parentheses, nested 1..L-1 deep (every depth; L = 32 for arrays and dictionaries, 100 for parentheses: the parser's nesting limits) must round-trip, nested L, L+1, L+2, 99, 100, 101, 150, 200 deep must round-trip or be rejected with an error; thread history: these nesting probes plus an ordinary text sequence, a bare operator and an inline image are checked in turn on a fresh thread, and again on a fresh thread that first decoded each history over a 27-item alphabet of earlier Content::decode inputs (well-formed content nested L-1 / L / L+1 / 200 deep in each shape, truncated content with 50 / 100 / 101 / 150 / 200 unclosed openers, stray closers, an inline image with missing data, an ordinary sequence, a valid inline image): every single item repeated {1, 3, 33, 100} times (thorough: {1, 2, 3, 31, 32, 33, 100, 250}), every ordered pair over a 12-item sub-alphabet (thorough: every ordered pair of all 27 items and every ordered triple over the 12-item sub-alphabet); each of the 431 distinct items is also decoded on a fresh thread of its own; what a thread decoded before, accepted or rejected, must not change any result; \
 sizes: between BT and ET, one operation carrying a name / literal string / hexadecimal string of n bytes filled with each of {letters, bytes 0x80.., delimiters and white space, digits}, placed as the only operand, as the first of two operands, as an array element, as a dictionary value and (names) as a dictionary key; an operator of n letters; an operation with n operands; an array of n elements; a dictionary of n entries; a run of n operations -- for every n in 0..=260 (thorough: 0..=1100) and n = 2^k - 1, 2^k, 2^k + 1 for k = 9..13 (thorough: k = 9..16) (the property bounds no length, so every one must decode to what was encoded); \
 inline image dictionaries: the four required entries (Width, Height, BitsPerComponent, ColorSpace) plus every subset of at most 2 (thorough: every subset) of the five optional entries the decoder supports (Decode, ImageMask, Intent, Interpolate and Length of ISO 32000-2 table 91; Filter / DecodeParms are refused by the decoder), written in EVERY order of the entries, x key spelling {all abbreviated, all full, alternating} x colour space {Gray, RGB, CMYK} (thorough: orders with 3 or more optional entries in one of these 9 combinations each, rotating with the order's number), with W, H in 1..3 and BPC in {1, 2, 4, 8} rotating with the order's number: the decoded operations must be q, BI, Q with exactly the written entries and data, and decode(encode(decoded)) must equal them; \
-inline image data: the same two checks for a 1x1 8-bit gray image with each of the 256 data bytes and a 2x1 one with each of the 65 536 pairs of data bytes (sample data are arbitrary bytes)", true);
+inline image data: the same two checks for a 1x1 8-bit gray image with each of the 256 data bytes and a 2x1 one with each of the 65 536 pairs of data bytes (sample data are arbitrary bytes); \
+names and strings inside inline image dictionaries: every byte string of 0, 1 and 2 bytes (65 793 strings) in each of four places of a 1x1 gray inline image -- as the KEY of an additional entry (/<bytes> 7; the keys of ISO 32000-2 table 91 excepted), as the name value of Intent, as the literal string value and as the hexadecimal string value of an additional entry /Note -- each in two spellings made by the harness (names: only the bytes that must be escaped written as #XX / every byte written as #xx; literal strings: only the necessary escapes / every byte as \\ddd; hexadecimal strings: upper / lower case digits), the entry standing before, between or after the four required ones (rotating): the same two checks (decodes to q, BI, Q with exactly the written entries and data; decode(encode(decoded)) equals the decoded operations); \
+real operand values: (a) boundary values of decimal -> binary conversion: for every binary exponent of f32 (the subnormal range included) and every power of ten 10^e that is at least half a unit in the last place there, every decimal d x 10^e in the exponent's range that lies within 2^-16 units in the last place of the midpoint of two adjacent f32 values contributes these two values with both signs (where more than 4096 decimals of one power of ten and exponent qualify -- the grids on which every second or fourth decimal lies ON a midpoint -- 4096 or fewer evenly spaced ones of them); about 274 000 values x 2 signs, each alone in a content stream as an operand of cm and as an element of the array operand of d; (b) consecutive bit patterns: one content stream for each block of 4096 consecutive finite f32 bit patterns (six as the operands of a cm, the next eight in the array operand of a d, alternately), for 17 of the 2048 blocks of every sign and exponent (every 128th and the last one; 35 512 320 values) -- thorough: for ALL blocks of the positive values, that is every one of the 2 139 095 040 positive finite f32 bit patterns (zero and the subnormal ones included), and for 257 of the 2048 blocks of every exponent of the negative ones (every 8th and the last one; 268 431 360 values); every real must come back as the same f32 (or as the integer of the same value)", true);
     let alpha = direct_alphabet();
     // 1. single operations
     let mut cases: Vec<Vec<Operation>> = vec![];
@@ -116,6 +118,10 @@ inline image data: the same two checks for a 1x1 8-bit gray image with each of t
     image_dict_section(&mut rep, thorough);
     // 8. inline image data bytes
     image_data_section(&mut rep);
+    // 9. names and strings inside inline image dictionaries
+    image_names_section(&mut rep);
+    // 10. real operand values
+    reals_section(&mut rep, thorough);
     rep
 }
 
@@ -125,6 +131,9 @@ pub fn replay(v: &Value) -> Result<(), String> {
         Some("history") => replay_history(v),
         Some("sized") => with_quiet_panics(|| check_sized(&SizedCase::from_json(v).ok_or("bad sized case")?).map_err(|e| format!("{}: {}", e.0, e.1))),
         Some("image") => with_quiet_panics(|| check_image(&ImageSpec::from_json(v).ok_or("bad image case")?).map_err(|e| format!("{}: {}", e.0, e.1))),
+        Some("real") => with_quiet_panics(|| { let (bits, place) = (v["bits"].as_u64().ok_or("bad real case")? as u32, v["place"].as_u64().unwrap_or(0).min(1) as usize);
+            if v["alone"].as_bool().unwrap_or(true) { check_real(bits, place) } else { check_real_in_block(bits) }.map_err(|e| format!("{}: {}", e.0, e.1)) }),
+        Some("image-name") => with_quiet_panics(|| ImageNameCase::from_json(v).ok_or("bad image-name case")?.check().map_err(|e| format!("{}: {}", e.0, e.1))),
         Some("inline") => check_inline(&unhex(v["bytes"].as_str().unwrap_or(""))).map(|_| ()).map_err(|e| format!("{}: {}", e.0, e.1)),
         _ => Err("unknown replay kind".into()),
     }
@@ -539,6 +548,10 @@ const IMAGE_KEYS: &[(&str, &str)] = &[("W", "Width"), ("H", "Height"), ("BPC", "
 const REQUIRED_KEYS: usize = 4;
 const COLOUR_SPACES: &[(&str, &str, usize)] = &[("G", "DeviceGray", 1), ("RGB", "DeviceRGB", 3), ("CMYK", "DeviceCMYK", 4)];
 
+/// one entry of an inline image dictionary: the key (the bytes of the name) and the value, and how each is spelled in the content stream
+#[derive(Clone, Debug)]
+struct Entry { key: Vec<u8>, key_text: String, value: Object, value_text: String }
+
 #[derive(Clone, Debug)]
 struct ImageSpec { w: usize, h: usize, bpc: usize, cs: String, keys: Vec<String>, seed: u8, fixed: Option<Vec<u8>> }
 
@@ -549,8 +562,8 @@ impl ImageSpec {
         let stride = (self.w * self.ncol().unwrap_or(1) * self.bpc + 7) / 8;
         (0..stride * self.h).map(|i| (i as u8).wrapping_mul(37).wrapping_add(self.seed)).collect()
     }
-    /// the entries as written: key, value, and the value's spelling (spelled here, not by the library's writer)
-    fn entries(&self) -> Vec<(String, Object, String)> {
+    /// the entries as written (spelled here, not by the library's writer)
+    fn entries(&self) -> Vec<Entry> {
         let n = self.ncol().unwrap_or(1);
         self.keys.iter().map(|k| {
             let full = IMAGE_KEYS.iter().find(|p| p.0 == k || p.1 == k).map(|p| p.1).unwrap_or("");
@@ -562,10 +575,10 @@ impl ImageSpec {
                 "ImageMask" => (Object::Boolean(false), "false".into()), "Intent" => (name(b"Perceptual"), "/Perceptual".into()),
                 "Interpolate" => (Object::Boolean(true), "true".into()), _ => { let l = self.data().len(); (Object::Integer(l as i64), l.to_string()) }
             };
-            (k.clone(), o, text)
+            Entry { key: k.as_bytes().to_vec(), key_text: k.clone(), value: o, value_text: text }
         }).collect()
     }
-    fn header_of(entries: &[(String, Object, String)]) -> String { format!("BI {}ID", entries.iter().map(|(k, _, t)| format!("/{} {} ", k, t)).collect::<String>()) }
+    fn header_of(entries: &[Entry]) -> String { format!("BI {}ID", entries.iter().map(|e| format!("/{} {} ", e.key_text, e.value_text)).collect::<String>()) }
     fn header(&self) -> String { Self::header_of(&self.entries()) }
     fn bytes_of(header: &str, data: &[u8]) -> Vec<u8> { [&b"q\n"[..], header.as_bytes(), &b" "[..], data, &b" EI\nQ"[..]].concat() }
     fn bytes(&self) -> Vec<u8> { Self::bytes_of(&self.header(), &self.data()) }
@@ -585,21 +598,25 @@ fn the_image(ops: &[Operation]) -> Result<&lopdf::Stream, String> {
     if ops.len() != 3 || ops[0].operator != "q" || ops[1].operator != "BI" || ops[2].operator != "Q" || !ops[0].operands.is_empty() || !ops[2].operands.is_empty() { return Err(format!("{} operations [{}] instead of q/0 BI/1 Q/0", ops.len(), shape())); }
     match ops[1].operands.as_slice() { [Object::Stream(s)] => Ok(s), other => Err(format!("BI has the operands [{}] instead of one stream", other.iter().map(short_obj).collect::<Vec<_>>().join("; "))) }
 }
-fn entries_text(d: &lopdf::Dictionary) -> String { d.iter().map(|(k, v)| format!("/{} {}", String::from_utf8_lossy(k), match v { Object::Name(n) => format!("/{}", String::from_utf8_lossy(n)), Object::Integer(i) => i.to_string(), Object::Boolean(b) => b.to_string(), o => short_obj(o) })).collect::<Vec<_>>().join(" ") }
+/// the bytes of a key, those outside the printable ASCII range as \xNN
+fn show_key(k: &[u8]) -> String { k.escape_ascii().to_string() }
+fn entries_text(d: &lopdf::Dictionary) -> String { d.iter().map(|(k, v)| format!("/{} {}", show_key(k), match v { Object::Name(n) => format!("/{}", String::from_utf8_lossy(n)), Object::Integer(i) => i.to_string(), Object::Boolean(b) => b.to_string(), o => short_obj(o) })).collect::<Vec<_>>().join(" ") }
 
-fn check_image(s: &ImageSpec) -> Result<(), (String, String)> {
-    let (entries, data) = (s.entries(), s.data());
-    let header = ImageSpec::header_of(&entries);
+fn check_image(s: &ImageSpec) -> Result<(), (String, String)> { check_image_entries(&s.entries(), &s.data()) }
+
+/// q, BI with these entries and data, Q: decodes to exactly what was written, and decode(encode(decoded)) gives the same operations again
+fn check_image_entries(entries: &[Entry], data: &[u8]) -> Result<(), (String, String)> {
+    let header = ImageSpec::header_of(entries);
     let bytes = ImageSpec::bytes_of(&header, &data);
     let shown = format!("q {} <{} data bytes> EI Q", header, data.len());
     let d1 = match caught(|| Content::decode(&bytes)) { Ok(Ok(d)) => d, Ok(Err(e)) => return Err(("inline-decodes".into(), format!("{} fails to decode: {}", shown, e))), Err(p) => return Err(("decode-no-panic".into(), format!("{}: {}", shown, p))) };
     // what was written is what is decoded
     let img = the_image(&d1.operations).map_err(|e| ("inline-decodes".to_string(), format!("{} decodes to {}", shown, e)))?;
-    if img.content != data { return Err(("inline-decodes".into(), format!("{} decodes to an image with {} data bytes {} instead of the {} written {}", shown, img.content.len(), clip(&hex(&img.content)), data.len(), clip(&hex(&data))))); }
-    for (k, o, t) in &entries {
-        match img.dict.get(k.as_bytes()) { Ok(got) if obj_eq(o, got) => {}, got => return Err(("inline-decodes".into(), format!("{} decodes to an image whose entry /{} is {} instead of {} (decoded entries: {})", shown, k, got.map(short_obj).unwrap_or("absent".into()), t, entries_text(&img.dict)))) }
+    if img.content != *data { return Err(("inline-decodes".into(), format!("{} decodes to an image with {} data bytes {} instead of the {} written {}", shown, img.content.len(), clip(&hex(&img.content)), data.len(), clip(&hex(&data))))); }
+    for e in entries {
+        match img.dict.get(&e.key) { Ok(got) if obj_eq(&e.value, got) => {}, got => return Err(("inline-decodes".into(), format!("{} decodes to an image whose entry /{} is {} instead of {} (decoded entries: {})", shown, e.key_text, got.map(short_obj).unwrap_or("absent".into()), e.value_text, entries_text(&img.dict)))) }
     }
-    if let Some((k, _)) = img.dict.iter().find(|(k, _)| k.as_slice() != b"Length" && !entries.iter().any(|e| e.0.as_bytes() == k.as_slice())) { return Err(("inline-decodes".into(), format!("{} decodes to an image with the entry /{} that was not written (decoded entries: {})", shown, String::from_utf8_lossy(k), entries_text(&img.dict)))); }
+    if let Some((k, _)) = img.dict.iter().find(|(k, _)| k.as_slice() != b"Length" && !entries.iter().any(|e| e.key == **k)) { return Err(("inline-decodes".into(), format!("{} decodes to an image with the entry /{} that was not written (decoded entries: {})", shown, show_key(k), entries_text(&img.dict)))); }
     // encode and decode again
     let enc = match caught(|| d1.encode()) { Ok(Ok(e)) => e, other => return Err(("inline-reencode".into(), format!("{}: encoding the decoded operations: {:?}", shown, other.map(|r| r.map_err(|e| e.to_string()))))) };
     let enc_head = { let cut = enc.windows(4).position(|w| w == b" ID ").map(|p| p + 3).unwrap_or(enc.len().min(120)); String::from_utf8_lossy(&enc[..cut]).replace('\n', " ") };
@@ -612,8 +629,8 @@ fn check_image(s: &ImageSpec) -> Result<(), (String, String)> {
                 Err(e) => e,
                 Ok(img2) => {
                     let mut diffs: Vec<String> = vec![];
-                    for (k, v) in img.dict.iter() { match img2.dict.get(k) { Err(_) => diffs.push(format!("the entry /{} {} is lost", String::from_utf8_lossy(k), short_obj(v))), Ok(v2) if !obj_eq(v, v2) => diffs.push(format!("the entry /{} changes from {} to {}", String::from_utf8_lossy(k), short_obj(v), short_obj(v2))), _ => {} } }
-                    for (k, v) in img2.dict.iter() { if !img.dict.has(k) { diffs.push(format!("the entry /{} {} appears", String::from_utf8_lossy(k), short_obj(v))); } }
+                    for (k, v) in img.dict.iter() { match img2.dict.get(k) { Err(_) => diffs.push(format!("the entry /{} {} is lost", show_key(k), short_obj(v))), Ok(v2) if !obj_eq(v, v2) => diffs.push(format!("the entry /{} changes from {} to {}", show_key(k), short_obj(v), short_obj(v2))), _ => {} } }
+                    for (k, v) in img2.dict.iter() { if !img.dict.has(k) { diffs.push(format!("the entry /{} {} appears", show_key(k), short_obj(v))); } }
                     if img.content != img2.content { diffs.push(format!("the data change from {} to {} bytes", img.content.len(), img2.content.len())); }
                     diffs.join(", ")
                 }
@@ -706,4 +723,289 @@ fn image_data_section(rep: &mut Report) {
             rep.fail(obligation, d.clone(), s.to_json(), d);
         }
     }
+}
+
+// ---------------------------------------------------------------------------------------------------------------
+// Names and strings inside inline image dictionaries.
+//
+// "Arbitrary bytes in names and strings; all byte pairs as string and name content (exhaustive)": section 3 puts every
+// byte pair where an operand stands. The entries of an inline image are the other place of a content stream where
+// names and strings stand, and they are read and written by code of their own (BI <key value ...> ID, not << >>). An
+// inline image dictionary is a dictionary: a key is a name like any other (ISO 32000-2, 7.3.5: any bytes, spelled with
+// #xx where needed), an entry the reader does not know is kept, and the value of Intent is a name the standard does
+// not restrict. So every byte string of 0, 1 and 2 bytes stands once in each of these places of a 1x1 gray image:
+//   key                  an additional entry /<bytes> 7
+//   name-value           /Intent /<bytes>
+//   literal-string-value an additional entry /Note (<bytes>)
+//   hex-string-value     an additional entry /Note <bytes in hexadecimal>
+// in two spellings each (only the bytes that must be escaped are / every byte is written as an escape sequence; upper
+// / lower case hexadecimal digits), the entry standing before, between or after the four required ones (rotating).
+// The spelling is done here, not by the library. Expected: what check_image_entries expects of every inline image.
+const NAME_PLACES: &[&str] = &["key", "name-value", "literal-string-value", "hex-string-value"];
+
+fn spell_name(b: &[u8], all_escaped: bool) -> String {
+    b.iter().map(|c| if !all_escaped && (0x21..=0x7e).contains(c) && !b"()<>[]{}/%#".contains(c) { (*c as char).to_string() } else if all_escaped { format!("#{:02x}", c) } else { format!("#{:02X}", c) }).collect()
+}
+fn spell_literal(b: &[u8], all_escaped: bool) -> String {
+    format!("({})", b.iter().map(|c| match c { _ if all_escaped => format!("\\{:03o}", c), b'(' => "\\(".into(), b')' => "\\)".into(), b'\\' => "\\\\".into(), b'\r' => "\\r".into(), b'\n' => "\\n".into(),
+        0x20..=0x7e => (*c as char).to_string(), _ => format!("\\{:03o}", c) }).collect::<String>())
+}
+
+#[derive(Clone, Debug, PartialEq, Eq)]
+struct ImageNameCase { bytes: Vec<u8>, place: usize, all_escaped: bool, position: usize }
+
+impl ImageNameCase {
+    /// keys of ISO 32000-2 table 91 cannot be the additional key
+    fn applicable(&self) -> bool { self.place != 0 || !IMAGE_KEYS.iter().any(|k| k.0.as_bytes() == self.bytes || k.1.as_bytes() == self.bytes) && ![&b"F"[..], b"Filter", b"DP", b"DecodeParms"].contains(&&self.bytes[..]) }
+    fn entries(&self) -> Vec<Entry> {
+        let int = |k: &str, v: i64| Entry { key: k.as_bytes().to_vec(), key_text: k.into(), value: Object::Integer(v), value_text: v.to_string() };
+        let mut v = vec![int("W", 1), int("H", 1), int("BPC", 8), Entry { key: b"CS".to_vec(), key_text: "CS".into(), value: name(b"G"), value_text: "/G".into() }];
+        let b = &self.bytes;
+        let extra = match NAME_PLACES[self.place] {
+            "key" => Entry { key: b.clone(), key_text: spell_name(b, self.all_escaped), value: Object::Integer(7), value_text: "7".into() },
+            "name-value" => Entry { key: b"Intent".to_vec(), key_text: "Intent".into(), value: Object::Name(b.clone()), value_text: format!("/{}", spell_name(b, self.all_escaped)) },
+            "literal-string-value" => Entry { key: b"Note".to_vec(), key_text: "Note".into(), value: lit(b), value_text: spell_literal(b, self.all_escaped) },
+            _ => Entry { key: b"Note".to_vec(), key_text: "Note".into(), value: hexs(b), value_text: format!("<{}>", if self.all_escaped { hex(b) } else { hex(b).to_uppercase() }) },
+        };
+        v.insert(self.position.min(4), extra);
+        v
+    }
+    fn data(&self) -> Vec<u8> { vec![0x5a] }
+    fn describe(&self) -> String { format!("the byte string <{}> ({} bytes) as {} of an inline image, {}", hex(&self.bytes), self.bytes.len(), NAME_PLACES[self.place], match (self.place == 3, self.all_escaped) { (true, true) => "in lower case hexadecimal digits", (true, false) => "in upper case hexadecimal digits", (false, true) => "every byte spelled as an escape sequence", (false, false) => "only the bytes that must be escaped spelled as escape sequences" }) }
+    fn check(&self) -> Result<(), (String, String)> { check_image_entries(&self.entries(), &self.data()).map_err(|(o, d)| (o, format!("{}: {}", self.describe(), d))) }
+    fn to_json(&self) -> Value { json!({"kind": "image-name", "bytes": hex(&self.bytes), "place": NAME_PLACES[self.place], "all_escaped": self.all_escaped, "position": self.position, "content": hex(&ImageSpec::bytes_of(&ImageSpec::header_of(&self.entries()), &self.data()))}) }
+    fn from_json(v: &Value) -> Option<ImageNameCase> {
+        Some(ImageNameCase { bytes: unhex(v["bytes"].as_str()?), place: NAME_PLACES.iter().position(|p| Some(*p) == v["place"].as_str())?, all_escaped: v["all_escaped"].as_bool()?, position: v["position"].as_u64()? as usize })
+    }
+}
+
+fn image_name_case(n: usize) -> ImageNameCase {
+    let (string, variant) = (n / 8, n % 8);
+    let bytes = match string { 0 => vec![], 1..=256 => vec![(string - 1) as u8], _ => vec![((string - 257) >> 8) as u8, (string - 257) as u8] };
+    ImageNameCase { bytes, place: variant / 2, all_escaped: variant % 2 == 1, position: (string + variant) % 5 }
+}
+
+fn image_names_section(rep: &mut Report) {
+    let total = (1 + 256 + 65536) * 8;
+    let failing: Vec<(usize, String)> = with_quiet_panics(|| (0..total).into_par_iter().filter_map(|n| { let c = image_name_case(n); if c.applicable() { c.check().err().map(|(o, _)| (n, o)) } else { None } }).collect());
+    let cases = (0..total).filter(|n| n % 8 >= 2 || image_name_case(*n).applicable()).count() as u64;
+    rep.evaluations += cases; rep.nontrivial += cases;
+    rep.sample(format!("{:?}", String::from_utf8_lossy(&ImageSpec::bytes_of(&ImageSpec::header_of(&image_name_case(8 * (257 + 0x2041) + 1).entries()), &[0x5a]))));
+    let mut groups: Vec<(String, usize)> = failing.iter().map(|f| (f.1.clone(), image_name_case(f.0).place)).collect();
+    groups.sort(); groups.dedup();
+    for (obligation, place) in groups {
+        let of: Vec<ImageNameCase> = failing.iter().filter(|f| f.1 == obligation).map(|f| image_name_case(f.0)).filter(|c| c.place == place).collect();
+        let in_place = (0..total).filter(|n| n % 8 / 2 == place).count();
+        let mut strings: Vec<&Vec<u8>> = of.iter().map(|c| &c.bytes).collect();
+        strings.sort(); strings.dedup();
+        let mut bytes_in: Vec<u8> = vec![];
+        // the bytes that occur in every failing string of two bytes together with EVERY other byte: the ones that matter
+        for b in 0..=255u8 { if (0..=255u8).all(|o| strings.binary_search(&&vec![b, o]).is_ok() && strings.binary_search(&&vec![o, b]).is_ok()) { bytes_in.push(b); } }
+        let culprits = if bytes_in.is_empty() { String::new() } else { format!("; every string that contains one of the bytes {} fails", bytes_in.iter().map(|b| format!("{:02x}", b)).collect::<Vec<_>>().join(" ")) };
+        for c in of.iter().take(3) {
+            let detail = with_quiet_panics(|| c.check()).err().map(|e| e.1).unwrap_or_else(|| "(passed when run again)".into());
+            let d = format!("[{} of the {} cases with the bytes as {} fail this way ({} different byte strings{})] {}", of.len(), in_place, NAME_PLACES[place], strings.len(), culprits, detail);
+            rep.fail(&obligation, d.clone(), c.to_json(), d);
+        }
+    }
+}
+
+// ---------------------------------------------------------------------------------------------------------------
+// Real operand values.
+//
+// "Operands of every direct kind": a Real operand holds an f32, and the property promises that it comes back equal
+// (as an integer of the same value if it is integral) WHATEVER its value is. The sections above carry a handful of
+// real values only. The value of a real is a dimension of the family like the bytes of a name: the encoder spells the
+// value in decimal and the decoder converts the decimal digits back, and whether that conversion returns the value
+// written depends on every bit of it (decimal -> binary rounding has isolated hard cases), so no sample of values
+// stands for the others. The family is therefore every positive finite f32 bit pattern and an eighth of the negative ones (thorough), in the two places a number
+// can stand in (operand of an operator; element of an array operand). CONSECUTIVE bit patterns share one content
+// stream (REAL_BLOCK values: `v v v v v v cm` / `[v v v v v v v v] 0 d` alternately), which is itself part of the
+// property (a sequence of operations decodes to the same operations in the same order) and makes the 2^31 affordable.
+// The oracle is the property: operand i of operation j of decode(encode(ops)) equals the f32 that was put there.
+const REAL_BLOCK: u32 = 1 << 12;
+const REAL_PLACES: &[&str] = &["operand-of-cm", "element-of-the-array-operand-of-d"];
+
+fn is_finite_bits(bits: u32) -> bool { bits & 0x7f80_0000 != 0x7f80_0000 }
+fn real_of(bits: u32) -> Object { Object::Real(f32::from_bits(bits)) }
+
+/// the operations carrying `vals` in order: six as the operands of cm, the next eight as the array operand of d, and so on; with the place of every value
+fn real_ops(vals: &[u32]) -> (Vec<Operation>, Vec<usize>) {
+    let mut ops = Vec::with_capacity(vals.len() / 7 + 2);
+    let mut places = Vec::with_capacity(vals.len());
+    let mut rest = vals;
+    let mut array = false;
+    while !rest.is_empty() {
+        let n = rest.len().min(if array { 8 } else { 6 });
+        let (now, later) = rest.split_at(n);
+        let reals: Vec<Object> = now.iter().map(|b| real_of(*b)).collect();
+        ops.push(if array { Operation::new("d", vec![Object::Array(reals), Object::Integer(0)]) } else { Operation::new("cm", reals) });
+        places.extend(std::iter::repeat(array as usize).take(n));
+        rest = later;
+        array = !array;
+    }
+    (ops, places)
+}
+/// the reals of the operations of `real_ops`, in order (None where the shape is not the encoded one)
+fn reals_back<'a>(want: &[Operation], got: &'a [Operation]) -> Option<Vec<&'a Object>> {
+    if want.len() != got.len() { return None; }
+    let mut v = vec![];
+    for (w, g) in want.iter().zip(got) {
+        if w.operator != g.operator || w.operands.len() != g.operands.len() { return None; }
+        match (w.operands.first(), g.operands.as_slice()) {
+            (Some(Object::Array(a)), [Object::Array(b), Object::Integer(0)]) if a.len() == b.len() => v.extend(b.iter()),
+            (Some(Object::Array(_)), _) => return None,
+            _ => v.extend(g.operands.iter()),
+        }
+    }
+    Some(v)
+}
+fn real_single_ops(bits: u32, place: usize) -> Vec<Operation> {
+    if place == 1 { vec![Operation::new("d", vec![Object::Array(vec![real_of(bits), Object::Integer(3)]), Object::Integer(0)])] }
+    else { vec![Operation::new("cm", vec![real_of(bits), Object::Integer(0), Object::Integer(0), Object::Integer(1), Object::Integer(10), Object::Integer(20)])] }
+}
+fn describe_real(bits: u32) -> String { format!("the real {:e} (f32 bit pattern {:#010x})", f32::from_bits(bits), bits) }
+fn ulps_between(a: f32, b: f32) -> String {
+    let key = |x: f32| { let b = x.to_bits() as i64; if b & 0x8000_0000 != 0 { -(b & 0x7fff_ffff) } else { b } };
+    format!("{} f32 steps away from the value written", (key(a) - key(b)).abs())
+}
+/// one real value alone in a content stream, in the given place
+fn check_real(bits: u32, place: usize) -> Result<(), (String, String)> {
+    let ops = real_single_ops(bits, place);
+    let what = format!("{} as {}", describe_real(bits), REAL_PLACES[place.min(1)]);
+    let enc = match caught(|| Content { operations: ops.as_slice() }.encode()) { Ok(Ok(e)) => e, other => return Err(("encode".into(), format!("{}: {:?}", what, other.map(|r| r.map_err(|e| e.to_string()))))) };
+    let text = clip(&String::from_utf8_lossy(&enc));
+    match caught(|| Content::decode(&enc)) {
+        Err(p) => Err(("decode-no-panic".into(), format!("{}, encoded as {:?}: {}", what, text, p))),
+        Ok(Err(e)) => Err(("real-value-survives".into(), format!("{}: the encoded bytes {:?} fail to decode: {}", what, text, e))),
+        Ok(Ok(d)) => match reals_back(&ops, &d.operations).and_then(|v| v.first().map(|o| (*o).clone())) {
+            Some(o) if obj_eq(&real_of(bits), &o) && ops_eq(&ops, &d.operations) => Ok(()),
+            Some(Object::Real(y)) => Err(("real-value-survives".into(), format!("{} is encoded as {:?} and decoded as the real {:e} (bit pattern {:#010x}), {}", what, text, y, y.to_bits(), ulps_between(f32::from_bits(bits), y)))),
+            Some(o) if ops_eq(&ops, &d.operations) => Err(("real-value-survives".into(), format!("{} is encoded as {:?} and decoded as {}", what, text, short_obj(&o)))),
+            _ => Err(("real-value-survives".into(), format!("{} is encoded as {:?}, which decodes to {}: {}", what, text, ops_summary(&d.operations), first_difference(&ops, &d.operations)))),
+        },
+    }
+}
+/// REAL_BLOCK consecutive bit patterns in one content stream; returns (bit pattern, place, fails when alone as well) of every value that does not come back
+fn check_real_block(block: u32) -> Vec<(u32, usize, bool)> {
+    let vals: Vec<u32> = (0..REAL_BLOCK).map(|i| block * REAL_BLOCK + i).filter(|b| is_finite_bits(*b)).collect();
+    if vals.is_empty() { return vec![]; }
+    let (ops, places) = real_ops(&vals);
+    let decoded = (|| { let enc = caught(|| Content { operations: ops.as_slice() }.encode()).ok()?.ok()?; caught(|| Content::decode(&enc)).ok()?.ok() })();
+    match decoded.as_ref().and_then(|d| reals_back(&ops, &d.operations)) {
+        Some(back) if back.len() == vals.len() => {
+            let bad: Vec<usize> = (0..vals.len()).filter(|i| !obj_eq(&real_of(vals[*i]), back[*i])).collect();
+            bad.into_iter().map(|i| (vals[i], places[i], check_real(vals[i], places[i]).is_err())).collect()
+        }
+        _ => {
+            // the content as a whole is refused or has another shape: which of its values are refused alone?
+            let alone: Vec<(u32, usize, bool)> = (0..vals.len()).filter(|i| check_real(vals[*i], places[*i]).is_err()).map(|i| (vals[i], places[i], true)).collect();
+            if alone.is_empty() { vec![(vals[0], places[0], false)] } else { alone }
+        }
+    }
+}
+/// a value that comes back when alone, but not among its REAL_BLOCK neighbours
+fn check_real_in_block(bits: u32) -> Result<(), (String, String)> {
+    match check_real_block(bits / REAL_BLOCK).into_iter().find(|f| f.0 == bits || !f.2) {
+        None => Ok(()),
+        Some((b, p, _)) => Err(("real-value-survives".into(), format!("{} as {} comes back when it stands alone in a content stream, but not in the content stream that carries the {} consecutive finite bit patterns from {:#010x} (six per cm, eight per array operand of d, alternately): encode -> decode does not return these operations",
+            describe_real(b), REAL_PLACES[p], REAL_BLOCK, bits / REAL_BLOCK * REAL_BLOCK))),
+    }
+}
+
+/// the blocks of the tier: 17 of the 2048 blocks of every sign and exponent (every 128th, and the last one); thorough: all blocks of the positive values and 257 of
+/// the 2048 blocks of every exponent of the negative ones (every 8th, and the last one) -- c01-reals (thorough) takes every bit pattern of both signs through the same two functions
+fn real_blocks(thorough: bool) -> Vec<u32> {
+    let all = ((1u64 << 32) / REAL_BLOCK as u64) as u32;
+    let per_exponent = (1u32 << 23) / REAL_BLOCK;
+    (0..all).filter(|b| { let last = b % per_exponent == per_exponent - 1; b % 128 == 0 || last || (thorough && (*b < all / 2 || b % 8 == 0)) }).collect()
+}
+
+// Boundary values of the real dimension (both tiers; the quick tier cannot afford every bit pattern).
+//
+// The encoder spells a real as a decimal number d * 10^e and the decoder has to find the f32 nearest to it. That is
+// hardest exactly where a decimal lies next to the MIDPOINT of two adjacent f32 values (the boundary where the result
+// of the conversion changes), the way a length is hardest around a power of two. So, independently of the library, in
+// exact fixed-point arithmetic: for every binary exponent E (f32 values m * 2^q, q = E - 150, 2^23 <= m < 2^24; from
+// m = 0 for the subnormal range) and every power of ten 10^e that is at least half a unit in the last place 2^q (a
+// decimal on a finer grid is never the shortest spelling next to a midpoint: there is a nearer one of the same
+// length), every multiple d * 10^e in the range is placed on the f32 scale, t = d * 10^e / 2^q; if t is within
+// 2^-REAL_NEAR of m + 1/2 for an integer m, the two f32 values m * 2^q and (m + 1) * 2^q, with both signs, are members.
+// Each member is encoded and decoded alone in a content stream, in both places; the oracle is the property.
+const REAL_NEAR: u32 = 16;
+const REAL_TIES: usize = 4096;
+
+/// 10^e as mantissa * 2^exponent with 2^127 <= mantissa < 2^128 (exact for 0 <= e <= 38, relative error below 2^-120 otherwise)
+fn pow10(e: i32) -> (u128, i32) {
+    if e >= 0 { let v = 10u128.pow(e as u32); let lz = v.leading_zeros(); return (v << lz, -(lz as i32)); }
+    let (mut m, mut s) = (1u128 << 127, -127i32);
+    for _ in 0..-e {
+        let (q, r) = (m / 10, m % 10);
+        let lz = q.leading_zeros();
+        m = (q << lz) + ((r << lz) / 10);
+        s -= lz as i32;
+    }
+    (m, s)
+}
+/// the positive f32 bit patterns next to which a decimal of the grid 10^e lies within 2^-REAL_NEAR units in the last place of a midpoint, for the biased exponent `exp` (1..=254)
+fn near_midpoints(exp: u32, e: i32) -> (u64, Vec<u32>) {
+    let q = exp as i32 - 150;
+    let (mant, s) = pow10(e);
+    let shift = q - s - 64; // 10^e / 2^q with 64 fractional bits = mant >> shift
+    if !(0..128).contains(&shift) { return (0, vec![]); }
+    let r = mant >> shift;
+    if r < 1u128 << 63 || r >= 1u128 << 88 { return (0, vec![]); } // finer than half a unit in the last place / no multiple in the range
+    let m_lo: u128 = if exp == 1 { 0 } else { 1 << 23 };
+    let (start, end) = (m_lo << 64, 1u128 << (24 + 64));
+    let mut t = (start + r - 1) / r * r;
+    if t == 0 { t = r; }
+    let (low, width) = ((1u64 << 63) - (1u64 << (63 - REAL_NEAR)), 1u64 << (64 - REAL_NEAR));
+    let base = (exp - 1) << 23; // bit pattern = base + m (m carries the implicit bit; exponent 1 and the subnormals share q)
+    let (mut steps, mut below) = (0u64, vec![]);
+    while t < end {
+        if (t as u64).wrapping_sub(low) < width { below.push(base + (t >> 64) as u32); }
+        t += r;
+        steps += 1;
+    }
+    // on a few grids every second or fourth decimal IS a midpoint (10^e an odd multiple of 2^(q-1) or 2^(q-2)): at most REAL_TIES evenly spaced ones of them
+    let keep = (below.len() + REAL_TIES - 1) / REAL_TIES;
+    (steps, below.iter().step_by(keep.max(1)).flat_map(|b| [*b, *b + 1]).collect())
+}
+/// (decimals placed, members of the family: positive bit patterns, sorted)
+fn real_boundary_values() -> (u64, Vec<u32>) {
+    let jobs: Vec<(u32, i32)> = (1..=254u32).flat_map(|exp| (-60..=38).map(move |e| (exp, e))).collect();
+    let found: Vec<(u64, Vec<u32>)> = jobs.par_iter().map(|(exp, e)| near_midpoints(*exp, *e)).collect();
+    let steps = found.iter().map(|f| f.0).sum();
+    let mut v: Vec<u32> = found.into_iter().flat_map(|f| f.1).filter(|b| is_finite_bits(*b)).collect();
+    v.sort(); v.dedup();
+    (steps, v)
+}
+
+fn report_real_failures(rep: &mut Report, mut fails: Vec<(u32, usize, bool)>, total: u64, family: &str) {
+    fails.sort();
+    for alone in [true, false] {
+        let of: Vec<&(u32, usize, bool)> = fails.iter().filter(|f| f.2 == alone).collect();
+        for (bits, place, _) in of.iter().take(3).map(|f| **f) {
+            let (obligation, detail) = with_quiet_panics(|| if alone { check_real(bits, place) } else { check_real_in_block(bits) }).err().unwrap_or_else(|| ("real-value-survives".into(), format!("{} (passed when run again)", describe_real(bits))));
+            let d = format!("[{} of the {} {} fail this way: bit patterns {:#010x}..={:#010x}] {}", of.len(), total, family, of[0].0, of[of.len() - 1].0, detail);
+            rep.fail(&obligation, d.clone(), json!({"kind": "real", "bits": bits, "place": place, "alone": alone}), d);
+        }
+    }
+}
+
+fn reals_section(rep: &mut Report, thorough: bool) {
+    // a. boundary values, each alone, in both places
+    let (_decimals_placed, members) = real_boundary_values();
+    let cases: u64 = members.len() as u64 * 4;
+    let fails: Vec<(u32, usize, bool)> = with_quiet_panics(|| members.par_iter().flat_map_iter(|b| [(*b, 0), (*b, 1), (*b | 0x8000_0000, 0), (*b | 0x8000_0000, 1)]).filter(|(b, p)| check_real(*b, *p).is_err()).map(|(b, p)| (b, p, true)).collect());
+    rep.evaluations += cases; rep.nontrivial += cases;
+    if let Some(b) = members.get(members.len() / 2) { rep.sample(format!("{:?}", real_single_ops(*b, 1))); }
+    report_real_failures(rep, fails, cases, "real values next to a rounding boundary (each in 2 places)");
+    // b. consecutive bit patterns
+    let blocks = real_blocks(thorough);
+    let fails: Vec<(u32, usize, bool)> = with_quiet_panics(|| blocks.par_iter().flat_map_iter(|b| check_real_block(*b)).collect());
+    // a block lies within one exponent (2^23 is a multiple of REAL_BLOCK): all of its values are finite or none is
+    let total: u64 = blocks.iter().filter(|b| is_finite_bits(**b * REAL_BLOCK)).count() as u64 * REAL_BLOCK as u64;
+    rep.evaluations += total; rep.nontrivial += total;
+    report_real_failures(rep, fails, total, "real values in blocks of consecutive bit patterns");
 }
